@@ -104,7 +104,34 @@ class StructGen(object):
             body = self.block(depth - 1, inline, level, loopdepth + 1, lo=0)
             if rng.random() < 0.25:
                 a = expr(rng, 1, DATAVARS) if rng.random() < 0.5 else a
-            return ['for', v, a, b, s, 1 if rng.random() < 0.6 else 0, body]
+            pre = []
+            if rng.random() < 0.35:
+                # the end (and sometimes the step or the start) is a VARIABLE that the body changes, itself or
+                # through a subroutine: the loop must keep the values it read at FOR
+                w = rng.choice(DATAVARS)
+                pre.append(['let', w, b])
+                b = V(w)
+                change = [['let', w, rng.choice([['-', V(w), 1], ['+', V(w), 1], ['-', V(w), 2], small(rng),
+                                                 ['+', V(w), V(v)]])]]
+                if rng.random() < 0.3:
+                    change.append(self.call(level))
+                if rng.random() < 0.3 and s != 0:
+                    w2 = rng.choice([x for x in DATAVARS if x != w])
+                    pre.append(['let', w2, s])
+                    s = V(w2)
+                    change.append(['let', w2, rng.choice([['+', V(w2), 1], ['-', 0, V(w2)], 0, 1])])
+                if rng.random() < 0.2 and isinstance(a, int):
+                    w3 = rng.choice([x for x in DATAVARS if x != w])
+                    if not (isinstance(s, list) and s[1] == w3):
+                        pre.append(['let', w3, a])
+                        a = V(w3)
+                        change.append(['let', w3, ['+', V(w3), 5]])
+                k = rng.randrange(0, len(body) + 1)
+                body = body[:k] + change + body[k:]
+            loop = ['for', v, a, b, s, 1 if rng.random() < 0.6 else 0, body]
+            if pre:
+                return ['seq', pre + [loop]]
+            return loop
         if r < 0.82:
             v = rng.choice(DATAVARS)
             n = rng.choice([0, 1, 2, 3])
@@ -122,7 +149,11 @@ class StructGen(object):
         for _ in range(rng.randrange(lo, hi + 1)):
             if not inline and out and out[-1][0] not in ('line', 'if') and rng.random() < 0.35:
                 out.append(['line', self.fresh()])
-            out.append(self.stmt(depth, inline, level, loopdepth))
+            st = self.stmt(depth, inline, level, loopdepth)
+            if st[0] == 'seq':
+                out += st[1]
+            else:
+                out.append(st)
         return out
 
     def program(self):
